@@ -9,7 +9,8 @@ restore() {
   git -C /repo checkout -- .
   # rebuild the pristine binaries so that nothing stale from the seeded change is left in .target
   (cd /verif && python3 -c "import sys; sys.path.insert(0,'py'); import common; common.build_real(); common.build_harness()" > /dev/null 2>&1)
-  echo "[try_patch] /repo restored, pristine binaries rebuilt"
+  git -C /verif checkout -- evidence 2>/dev/null   # evidence written while the seeded change was applied is not evidence about the tree
+  echo "[try_patch] /repo restored, pristine binaries rebuilt, evidence files restored"
 }
 trap restore EXIT
 for id in "$@"; do
